@@ -38,7 +38,8 @@ PROFILE = {
     "edits": hist.ALL_EDITS,
     "n": (3, 10),
     "p_restart": 0.75,
-    "p_mutate": 0.04,
+    "p_mutate": 0.08,
+    "p_proc2": 0.3,
     "locations": ["package", "package", "package", "main", "notebook"],
 }
 
